@@ -29,6 +29,11 @@ def sym_value(it, px, name, spec=None):
     if kind == 'i64':
         v = px.bv(name + '_i', 64)
         return Enum('Value', 1, 'Number', (Dec(z3.BV2Int(v, True), 0, ('bv', v, True)),))
+    if kind == 'i128':
+        # an integer with a 96-bit magnitude, bit-vector sourced (keeps bit-level and floating-point queries in one theory)
+        v = px.bv(name + '_w', 128)
+        px.add(z3.And(v >= z3.BitVecVal(-MAX96, 128), v <= z3.BitVecVal(MAX96, 128)))
+        return Enum('Value', 1, 'Number', (Dec(z3.BV2Int(v, True), 0, ('bv', v, True)),))
     if kind == 'smallint':
         # an integral number carrying a non-zero scale: n * 10^s / 10^s with n in i16
         scales = spec.get('int_scales', [1, 2])
